@@ -15,7 +15,7 @@ import tempfile
 from harness.lib import hx, cz, clist
 
 ID = 'C04'
-RULE = ('files of 1-5 records for BED/BED6/narrowPeak/VCF(VCFBuffer and VCFBuffer2, with and without genotype columns)/SAM '
+RULE = ('[sessions: several tables derived from one source, source/intermediate tables written after the derived ones; selections that keep first+last record and permute / repeat equal-length inner records] files of 1-5 records for BED/BED6/narrowPeak/VCF(VCFBuffer and VCFBuffer2, with and without genotype columns)/SAM '
         '(0-3 optional tags)/GTF/FASTQ(+name lines)/two-line FASTA/BAM with non-canonical spellings (leading zeros, +5, 1e3), '
         'LF and CRLF; programs = trees of selections (slice, step incl. negative, mask, int list with repeats, single index), '
         'concatenations (2-3 operands), replacements of 1-3 fields and intermediate writes; exhaustive index-menu programs of '
@@ -322,7 +322,78 @@ def generate(tier, seed):
                     eol = 'lf'
             f = _gen_file(fmt, rng, n, eol, **shape)
             cases.append(_mk(f, _gen_prog(rng, fmt, n, repl_prob=(0.15 if fmt == 'bam' else 0.45), cat_ok=(fmt != 'bam' or i % 6 == 0))))
+    # (3) selections that keep the first and the last record in place and select exactly as many bytes as the file holds:
+    #     inner permutations, and an inner record dropped while an equally long one is repeated; also chained / after an
+    #     intermediate write.  Records 1..3 of these files have equal byte length.
+    lazy = ['bed', 'bed6', 'np', 'vcf', 'vcf2', 'sam', 'fastq', 'fasta', 'bam']
+    for fmt in lazy:
+        for rep in range(1 if quick else 4):
+            for eol in (('lf',) if fmt == 'bam' else ('lf', 'crlf') if (rep == 0 and fmt in ('bed6', 'fastq', 'fasta')) else ('lf',)):
+                f = _gen_file_eq(fmt, rng, eol)
+                for sel in ([0, 2, 1, 3, 4], [0, 1, 1, 3, 4], [0, 3, 3, 3, 4], [0, 3, 2, 1, 4], [0, 2, 2, 1, 4]):
+                    base = ['idx', ['list', sel], list(sel), ['src']]
+                    cases.append(_mk(f, base))
+                rev = [4, 3, 2, 1, 0]
+                cases.append(_mk(f, ['idx', ['list', [4, 2, 3, 1, 0]], [4, 2, 3, 1, 0], ['idx', ['slice', None, None, -1], rev, ['src']]]))
+                cases.append(_mk(f, ['idx', ['list', [0, 2, 1, 3, 4]], [0, 2, 1, 3, 4], ['touch', ['idx', ['list', [0, 2, 1, 3, 4]], [0, 2, 1, 3, 4], ['src']]]]))
+                cases.append(_mk(f, ['idx', ['list', [0, 1, 1, 3, 4]], [0, 1, 1, 3, 4], ['touch', ['idx', ['array', [0, 3, 2, 1, 4]], [0, 3, 2, 1, 4], ['src']]]]))
+                cases.append(_mk(f, ['touch', ['idx', ['mask', [True] * 5], [0, 1, 2, 3, 4], ['idx', ['list', [0, 2, 1, 3, 4]], [0, 2, 1, 3, 4], ['src']]]]))
+    # (4) sessions: several tables derived from one source (replacements on the source, on intermediate tables and on
+    #     siblings), and the source / intermediate tables written AFTER the derived ones were made
+    for fmt in ('bed', 'bed6', 'np', 'vcf', 'vcf2', 'sam', 'fastq', 'fasta'):
+        for rep in range(3 if quick else 12):
+            n = rng.choice([2, 3, 4])
+            shape = {'samples': rng.choice([1, 2])} if fmt == 'vcf2' else {}
+            f = _gen_file(fmt, rng, n, 'lf', **shape)
+            cases.append(_gen_session(rng, fmt, f, n, rep))
     return cases
+
+
+def _gen_file_eq(fmt, rng, eol):
+    f = _gen_file(fmt, rng, 5, eol, samples=2)
+    recs = f['recs']
+    for i in (2, 3):
+        r = dict(cols=list(recs[1]['cols']), eol=recs[1]['eol'])
+        if fmt == 'bam':
+            raw = bytearray(r['cols'][0].encode('latin1'))
+            raw[36] = ord('x') + i          # first character of the read name
+            r['cols'][0] = bytes(raw).decode('latin1')
+        else:
+            c = r['cols'][0]
+            r['cols'][0] = c[:-1] + 'wxyz'[i]
+        recs[i] = r
+    return f
+
+
+def _repl(rng, fmt, n, p, exclude=()):
+    j, name, kind = rng.choice([x for x in FIELDS[fmt] if x[0] not in exclude])
+    return ['repl', j, name, kind, _values(rng, fmt, j, kind, n), p], j
+
+
+def _gen_session(rng, fmt, f, n, variant):
+    c = dict(f)
+    v = variant % 3
+    if v == 0:      # t1 = replace(t, a); t2 = replace(t1, b); everything is written, the source last
+        p1, j1 = _repl(rng, fmt, n, ['src'])
+        p2, _ = _repl(rng, fmt, n, ['ref', 1], exclude=(j1,))
+        c['progs'] = [['src'], p1, p2]
+        c['writes'] = [1, 2, 0]
+    elif v == 1:    # two siblings of one source with different replaced columns
+        p1, j1 = _repl(rng, fmt, n, ['src'])
+        p2, _ = _repl(rng, fmt, n, ['src'], exclude=(j1,))
+        c['progs'] = [p1, p2, ['src']]
+        c['writes'] = [0, 1, 2]
+    else:           # a selection, a replaced copy of it, a replaced copy of the copy; the selection is written last
+        spec = _gen_index(rng, n)
+        sel = _resolve(spec, n)
+        if not sel:
+            spec, sel = ['slice', None, None, -1], list(range(n))[::-1]
+        s0 = ['idx', spec, sel, ['src']]
+        p1, j1 = _repl(rng, fmt, len(sel), ['ref', 0])
+        p2, _ = _repl(rng, fmt, len(sel), ['touch', ['ref', 1]], exclude=(j1,))
+        c['progs'] = [s0, p1, p2]
+        c['writes'] = [2, 1, 0]
+    return c
 
 
 # ----------------------------------------------------------------------------- implementation runner
@@ -361,7 +432,12 @@ def observe(case):
         def ev(p, src):
             k = p[0]
             if k == 'src':
-                return src
+                return src[0]
+            if k == 'ref':
+                st, val = src[1][p[1]]
+                if st == 'err':
+                    raise val
+                return val
             if k == 'idx':
                 t = ev(p[3], src)
                 spec = p[1]
@@ -393,19 +469,40 @@ def observe(case):
                     v = bnp.as_encoded_array(list(vals))
                 return bnp.replace(t, **{p[2]: v})
             raise ValueError(k)
+        progs, writes = _session(case)
+        values = []
+
+        runs = []
         try:
-            with bnp.open(path, buffer_type=bt) as f:
-                src = f.read()
-                res = ev(case['prog'], src)
-                q = write(res, 'out')
-        except Exception as e:   # an exception is an observation here (BAM refuses modified writes; SAM/CRLF cannot be read)
-            return dict(error=type(e).__name__, msg=str(e)[:120])
-        out = open(q, 'rb').read()
-        if fmt == 'bam':
-            eof = out[-28:] == bnp.io.parser.NumpyBamWriter.EOF_MARKER
-            out = gzip.decompress(out)
-            return dict(out=out.decode('latin1'), bam_eof=bool(eof))
-        return dict(out=out.decode('latin1'))
+            f = bnp.open(path, buffer_type=bt)
+            src = f.read()
+        except Exception as e:   # unreadable file (SAM/CRLF): every table fails the same way
+            return dict(runs=[dict(error=type(e).__name__, msg=str(e)[:120]) for _ in writes])
+        try:
+            for p in progs:
+                try:
+                    values.append(('ok', ev(p, (src, values))))
+                except Exception as e:   # an exception is an observation here (e.g. BAM concatenation)
+                    values.append(('err', e))
+            for k, w in enumerate(writes):
+                st, val = values[w]
+                if st == 'err':
+                    runs.append(dict(error=type(val).__name__, msg=str(val)[:120]))
+                    continue
+                try:
+                    q = write(val, 'out%d' % k)
+                except Exception as e:   # BAM refuses modified writes
+                    runs.append(dict(error=type(e).__name__, msg=str(e)[:120]))
+                    continue
+                out = open(q, 'rb').read()
+                if fmt == 'bam':
+                    eof = out[-28:] == bnp.io.parser.NumpyBamWriter.EOF_MARKER
+                    runs.append(dict(out=gzip.decompress(out).decode('latin1'), bam_eof=bool(eof)))
+                else:
+                    runs.append(dict(out=out.decode('latin1')))
+        finally:
+            f.close()
+        return dict(runs=runs)
     finally:
         shutil.rmtree(d, ignore_errors=True)
 
@@ -426,19 +523,55 @@ def _prog_coq(p):
     raise ValueError(k)
 
 
+def _session(case):
+    """(programs, indices of the tables that are written).  A program may refer to an earlier table with ['ref', k]."""
+    if 'progs' in case:
+        return case['progs'], case.get('writes', list(range(len(case['progs']))))
+    return [case['prog']], [0]
+
+
+def _inline(p, progs):
+    k = p[0]
+    if k == 'ref':
+        return _inline(progs[p[1]], progs)
+    if k == 'src':
+        return p
+    if k == 'cat':
+        return ['cat', [_inline(q, progs) for q in p[1]]]
+    return list(p[:-1]) + [_inline(p[-1], progs)]
+
+
+def _subcases(case, o):
+    """per written table: (the case with that table's program, references expanded; its observation)"""
+    progs, writes = _session(case)
+    out = []
+    for k, w in enumerate(writes):
+        c = dict(case)
+        c.pop('progs', None)
+        c.pop('writes', None)
+        c['prog'] = _inline(progs[w], progs)
+        ro = o['runs'][k] if isinstance(o, dict) and 'runs' in o and k < len(o['runs']) else dict(error='missing')
+        out.append((c, ro))
+    return out
+
+
 def to_coq(case, o):
     recs = clist(['{| g_cols := %s; g_eol := %s |}' % (
         clist([hx(c.encode('latin1')) for c in r['cols']], '(list Z)'),
         hx(b'' if r['eol'] == 'none' else _eol(r).encode())) for r in case['recs']], 'grec')
-    if 'error' in o:
-        out = '(@None (list Z))'
-    else:
-        ob = o['out'].encode('latin1')
-        if case['fmt'] == 'bam' and not o.get('bam_eof', False):
-            ob = b'\xff' + ob          # a BAM file without the end-of-file block is not a valid output: no model/spec accepts it
-        out = '(Some %s)' % hx(ob)
-    return ('{| k_fmt := %s; k_recs := %s; k_header := %s; k_file := %s; k_prog := %s; k_out := %s |}' % (
-        FMT_COQ[case['fmt']], recs, hx(case['header'].encode('latin1')), hx(_body(case)), _prog_coq(case['prog']), out))
+    runs = []
+    for c, ro in _subcases(case, o):
+        if 'error' in ro:
+            out = '(@None (list Z))'
+        else:
+            ob = ro['out'].encode('latin1')
+            if case['fmt'] == 'bam' and not ro.get('bam_eof', False):
+                ob = b'\xff' + ob          # a BAM file without the end-of-file block is not a valid output: no model/spec accepts it
+            out = '(Some %s)' % hx(ob)
+        runs.append('(%s, %s)' % (_prog_coq(c['prog']), out))
+    return ('{| k_fmt := %s; k_recs := %s; k_header := %s; k_file := %s; k_runs := %s |}' % (
+        FMT_COQ[case['fmt']], recs, hx(case['header'].encode('latin1')), hx(_body(case)),
+        clist(runs, '(prog * option (list Z))')))
 
 
 # ----------------------------------------------------------------------------- python mirror of the spec (classification only)
@@ -512,7 +645,7 @@ def _canon_int(t):
     return ('-' if neg and s != '0' else '') + s
 
 
-def finding(case, o):
+def _finding1(case, o):
     fmt = case['fmt']
     crlf = any(r['eol'] == 'crlf' for r in case['recs'])
     body = _body_of(case, o)
@@ -544,13 +677,13 @@ def finding(case, o):
     return None
 
 
-def signature(case, o):
+def _signature1(case, o):
     return '%s/%s/%s/%s' % (case['fmt'], 'crlf' if any(r['eol'] == 'crlf' for r in case['recs']) else 'lf',
                             'repl' if _has(case['prog'], ('repl',)) else ('cat' if _has(case['prog'], ('cat',)) else 'sel'),
                             o.get('error', 'out'))
 
 
-def explain(case, o):
+def _explain1(case, o):
     body = _body_of(case, o)
     rows, pure = _spec_rows(case, case['prog'])
     return dict(file=(case['header'] + _body(case).decode('latin1')), pure_selection=pure,
@@ -569,12 +702,12 @@ def _identity(p, n):
     return False
 
 
-def nontrivial(case, o):
+def _nontrivial1(case, o):
     lens = set(len(_raw(case['fmt'], r['cols'], '')) for r in case['recs'])
     return len(lens) > 1 and not _identity(case['prog'], len(case['recs']))
 
 
-def describe(case, o):
+def _describe1(case, o):
     return dict(fmt=case['fmt'], file=(case['header'] if case['fmt'] != 'bam' else '<bam header>') +
                 (_body(case).decode('latin1') if case['fmt'] != 'bam' else '<%d bam records>' % len(case['recs'])),
                 prog=_show(case['prog']), out=(o.get('out') if case['fmt'] != 'bam' else '<bam>'), error=o.get('error'))
@@ -584,6 +717,8 @@ def _show(p):
     k = p[0]
     if k == 'src':
         return 't'
+    if k == 'ref':
+        return 't%d' % p[1]
     if k == 'idx':
         s = p[1]
         if s[0] == 'slice':
@@ -600,6 +735,49 @@ def _show(p):
     return 'replace(%s, %s=%r)' % (_show(p[5]), p[2], p[4])
 
 
+def _run_fails(c, ro):
+    body = _body_of(c, ro)
+    if body is None:
+        return not (c['fmt'] == 'bam' and 'error' in ro and _has(c['prog'], ('cat', 'repl')))
+    return not _spec_ok_py(c, body)
+
+
+def finding(case, o):
+    """id of a known finding only if EVERY table of the session that fails the property fails in exactly that way"""
+    ids = set()
+    for c, ro in _subcases(case, o):
+        if _run_fails(c, ro):
+            ids.add(_finding1(c, ro))
+    if len(ids) == 1 and None not in ids:
+        return ids.pop()
+    return None
+
+
+def signature(case, o):
+    subs = _subcases(case, o)
+    bad = [x for x in subs if _run_fails(*x)] or subs
+    return _signature1(*bad[0]) + ('/multi' if len(subs) > 1 else '')
+
+
+def explain(case, o):
+    return [_explain1(c, ro) for c, ro in _subcases(case, o)]
+
+
+def nontrivial(case, o):
+    return any(_nontrivial1(c, ro) for c, ro in _subcases(case, o))
+
+
+def describe(case, o):
+    subs = _subcases(case, o)
+    d = _describe1(*subs[0])
+    if len(subs) > 1:
+        progs, writes = _session(case)
+        d['session'] = ['t%d = %s' % (i, _show(p)) for i, p in enumerate(progs)]
+        d['written'] = ['t%d' % w for w in writes]
+        d['outs'] = [ro.get('out', ro.get('error')) if case['fmt'] != 'bam' else '<bam>' for _, ro in subs]
+    return d
+
+
 def distribution(cases, obs):
     d = dict(fmt={}, crlf=0, with_concat=0, with_replace=0, with_touch=0, index_kinds={}, refused=0, records={})
     def walk(p):
@@ -611,16 +789,21 @@ def distribution(cases, obs):
                 walk(q)
         elif p[0] != 'src':
             walk(p[-1])
+    d['sessions_with_several_written_tables'] = 0
     for c, o in zip(cases, obs):
+        progs, writes = _session(c)
+        full = [_inline(p, progs) for p in progs]
         d['fmt'][c['fmt']] = d['fmt'].get(c['fmt'], 0) + 1
         d['crlf'] += any(r['eol'] == 'crlf' for r in c['recs'])
-        d['with_concat'] += _has(c['prog'], ('cat',))
-        d['with_replace'] += _has(c['prog'], ('repl',))
-        d['with_touch'] += _has(c['prog'], ('touch',))
-        d['refused'] += isinstance(o, dict) and 'error' in o
+        d['with_concat'] += any(_has(p, ('cat',)) for p in full)
+        d['with_replace'] += any(_has(p, ('repl',)) for p in full)
+        d['with_touch'] += any(_has(p, ('touch',)) for p in full)
+        d['refused'] += isinstance(o, dict) and any('error' in r for r in o.get('runs', []))
+        d['sessions_with_several_written_tables'] += len(writes) > 1
         k = str(len(c['recs']))
         d['records'][k] = d['records'].get(k, 0) + 1
-        walk(c['prog'])
+        for p in full:
+            walk(p)
     return d
 
 
